@@ -56,9 +56,9 @@ Definition dec_spec (mant : list dch) (exp : option (list dch)) : option Z :=
 
 (* the narrow class the lowering gets wrong: zero mantissa with an exponent of 20 or more
    (value 0, rejected because 10^e alone overflows) *)
-Definition dec_known_class (mant : list dch) (exp : option (list dch)) : bool :=
+Definition dec_known_class (V : variant) (mant : list dch) (exp : option (list dch)) : bool :=
   match exp with
-  | Some e => (value_of 10 (strip mant) =? 0) && (20 <=? value_of 10 (strip e))
+  | Some e => negb (fx_zero V) && (value_of 10 (strip mant) =? 0) && (20 <=? value_of 10 (strip e))
   | None => false
   end.
 
@@ -68,8 +68,8 @@ Proof.
   assert (u64_max < 10 ^ 20) by (vm_compute; reflexivity). lia.
 Qed.
 
-Theorem lower_dec_except_known mant exp : dec_wf mant exp -> dec_known_class mant exp = false ->
-  lower_dec mant exp = dec_spec mant exp.
+Theorem lower_dec_except_known V mant exp : dec_wf mant exp -> dec_known_class V mant exp = false ->
+  lower_dec V mant exp = dec_spec mant exp.
 Proof.
   intros (Dm & NEm & He) K. unfold lower_dec, dec_spec, dec_value.
   rewrite (parse_radix_correct 10 u64_max (strip mant)) by (auto; unfold u64_max; lia).
@@ -86,12 +86,15 @@ Proof.
   assert (P1 : 1 <= 10 ^ ev) by (pose proof (Z.pow_pos_nonneg 10 ev ltac:(lia) E0); lia).
   destruct (Z.leb_spec m u64_max) as [Lm|Gm].
   2: { destruct (Z.leb_spec (m * 10 ^ ev) u64_max); [nia | reflexivity]. }
+  destruct (fx_zero V && (m =? 0)) eqn:FZ.
+  { apply andb_true_iff in FZ. destruct FZ as [_ FZ]. apply Z.eqb_eq in FZ. rewrite FZ, Z.mul_0_l. reflexivity. }
   assert (Big : 20 <= ev -> u64_max < m * 10 ^ ev).
   { intros B. pose proof (pow10_big ev B).
     destruct (Z.eqb_spec m 0) as [Z0|NZ].
-    - destruct (Z.leb_spec 20 ev) as [L20|L20]; [|lia]. exfalso. revert K.
+    - destruct (Z.leb_spec 20 ev) as [L20|L20]; [|lia]. exfalso. revert K FZ.
       replace (m =? 0) with true by (symmetry; apply Z.eqb_eq; exact Z0).
-      replace (20 <=? ev) with true by (symmetry; apply Z.leb_le; exact L20). discriminate.
+      replace (20 <=? ev) with true by (symmetry; apply Z.leb_le; exact L20).
+      destruct (fx_zero V); discriminate.
     - nia. }
   destruct (Z.leb_spec ev u32_max) as [Le|Ge].
   - unfold checked_pow10. destruct (Z.leb_spec ev 19).
@@ -126,13 +129,22 @@ Proof.
     pose proof (pow10_big ev H). destruct (Z.leb_spec (m * 10 ^ ev) u64_max); [nia | reflexivity].
 Qed.
 
+(* the repaired lowering (finding C09-4 fixed): the FULL statement *)
+Theorem lower_dec_full_fixed V mant exp : fx_zero V = true -> dec_wf mant exp ->
+  lower_dec V mant exp = dec_spec mant exp.
+Proof.
+  intros FX W. apply lower_dec_except_known; [assumption|].
+  unfold dec_known_class. rewrite FX. destruct exp; reflexivity.
+Qed.
+
+(* HISTORY (finding C09-4): the full statement about the unrepaired variant is false *)
 Definition lower_dec_full : Prop :=
-  forall mant exp, dec_wf mant exp -> lower_dec mant exp = dec_spec mant exp.
+  forall V mant exp, fx_zero V = false -> dec_wf mant exp -> lower_dec V mant exp = dec_spec mant exp.
 
 (* 0e20 spells 0 and is rejected *)
 Lemma lower_dec_full_refuted : ~ lower_dec_full.
 Proof.
-  intros H. specialize (H [Dg 0] (Some [Dg 2; Dg 0])).
+  intros H. specialize (H v_orig [Dg 0] (Some [Dg 2; Dg 0]) eq_refl).
   assert (dec_wf [Dg 0] (Some [Dg 2; Dg 0])) as W.
   { repeat split; cbn; try (repeat constructor; lia); discriminate. }
   specialize (H W). vm_compute in H. discriminate.
@@ -186,34 +198,44 @@ Definition real_width (t : ity) : Z := match t with IT _ w => if w =? 255 then 6
 Definition fits_ty (t : ity) (n : Z) : bool := match t with IT sg _ => fits_int sg (real_width t) n end.
 
 (* classes: 1 = i128 literal above i64::MAX rejected; 2 = isize literal above i64::MAX accepted *)
-Definition accept_known_class (t : ity) (n : Z) : option N :=
+Definition accept_known_class (V : variant) (t : ity) (n : Z) : option N :=
   match t with
-  | IT true w => if (w =? 128) && (i64_max <? n) then Some 1%N
-                 else if (w =? 255) && (i64_max <? n) then Some 2%N else None
+  | IT true w => if negb (fx_i128 V) && (w =? 128) && (i64_max <? n) then Some 1%N
+                 else if negb (fx_isize V) && (w =? 255) && (i64_max <? n) then Some 2%N else None
   | _ => None
   end.
 
-Theorem accept_iff_fits_except_known t n : ity_wf t -> 0 <= n <= u64_max ->
-  accept_known_class t n = None -> accepted t n = fits_ty t n.
+Theorem accept_iff_fits_except_known V t n : ity_wf t -> 0 <= n <= u64_max ->
+  accept_known_class V t n = None -> accepted V t n = fits_ty t n.
 Proof.
-  intros W Hn K. destruct t as [sg w]. cbn in W.
-  unfold accepted, fits_ty, real_width, fits_int, max_int_size, accept_known_class in *.
-  unfold u64_max, i64_max, i32_max, u32_max in *.
-  destruct W as [-> | [-> | [-> | [-> | [-> | ->]]]]]; destruct sg; cbn in *;
+  intros W Hn K. destruct t as [sg w]. cbn in W. destruct V as [fz f2 f3]. destruct f2, f3.
+  all: cbn [fx_i128 fx_isize fx_zero negb andb] in *.
+  all: unfold accepted, fits_ty, real_width, fits_int, max_int_size, accept_known_class in *;
+    unfold u64_max, i64_max, i32_max, u32_max in *;
+    destruct W as [-> | [-> | [-> | [-> | [-> | ->]]]]]; destruct sg; cbn in *;
     repeat match goal with
     | |- context [?a <=? ?b] => destruct (Z.leb_spec a b)
     | H : context [?a <? ?b] |- _ => destruct (Z.ltb_spec a b)
     end; cbn in *; try reflexivity; try discriminate; try lia.
 Qed.
 
+(* the repaired get_max_int_size (findings C09-2 and C09-3 fixed): the FULL statement *)
+Theorem accept_full_fixed V t n : fx_i128 V = true -> fx_isize V = true ->
+  ity_wf t -> 0 <= n <= u64_max -> accepted V t n = fits_ty t n.
+Proof.
+  intros F2 F3 W Hn. apply accept_iff_fits_except_known; try assumption.
+  unfold accept_known_class. rewrite F2, F3. destruct t as [[|] w]; reflexivity.
+Qed.
+
+(* HISTORY (findings C09-2, C09-3): the full statement about the unrepaired variant is false *)
 Definition accept_full : Prop :=
-  forall t n, ity_wf t -> 0 <= n <= u64_max -> accepted t n = fits_ty t n.
+  forall t n, ity_wf t -> 0 <= n <= u64_max -> accepted v_orig t n = fits_ty t n.
 Lemma accept_full_refuted : ~ accept_full.
 Proof.
   intros H. specialize (H (IT true 128) (2 ^ 63) ltac:(cbn; tauto) ltac:(unfold u64_max; cbn; lia)).
   vm_compute in H. discriminate.
 Qed.
-Lemma accept_isize_witness : accepted (IT true 255) u64_max = true /\ fits_ty (IT true 255) u64_max = false.
+Lemma accept_isize_witness : accepted v_orig (IT true 255) u64_max = true /\ fits_ty (IT true 255) u64_max = false.
 Proof. split; vm_compute; reflexivity. Qed.
 
 (* ---- an accepted literal keeps its written value ------------------------------------------------ *)
@@ -232,11 +254,11 @@ Proof.
     apply wrap_small. unfold in_bits. lia.
 Qed.
 
-Theorem accepted_keeps_value_except_known t n : ity_wf t -> 0 <= n <= u64_max ->
-  accept_known_class t n = None -> accepted t n = true -> observed t n = n.
+Theorem accepted_keeps_value_except_known V t n : ity_wf t -> 0 <= n <= u64_max ->
+  accept_known_class V t n = None -> accepted V t n = true -> observed t n = n.
 Proof.
   intros W Hn K A. apply fits_keeps_value; [assumption|].
-  rewrite <- (accept_iff_fits_except_known t n W Hn K). exact A.
+  rewrite <- (accept_iff_fits_except_known V t n W Hn K). exact A.
 Qed.
 
 (* unannotated literals *)
